@@ -181,11 +181,11 @@ HARNESSES = [
     R.H("blank_invariance",
         ["hed.validator.util.string_util.StringValidator.check_delimiter_issues_in_hed_string",
          "hed.models.hed_string.HedString.split_hed_string"],
-        quick=R.tier(cells=R.str_cells(4, split1_from=4, minlen=1), env={"VP_N": 4}, timeout=200,
-                     bound="every printable-ASCII s, 1 <= len(s) <= 4, one blank inserted at any position adjacent "
+        quick=R.tier(cells=R.str_cells(3, split1_from=3, minlen=1), env={"VP_N": 3}, timeout=200,
+                     bound="every printable-ASCII s, 1 <= len(s) <= 3, one blank inserted at any position adjacent "
                            "to a comma or parenthesis"),
-        thorough=R.tier(cells=R.str_cells(5, split1_from=3, split2_from=5, minlen=1), env={"VP_N": 5}, timeout=900,
-                        bound="same with len(s) <= 5"),
+        thorough=R.tier(cells=R.str_cells(4, split1_from=3, split2_from=4, minlen=1), env={"VP_N": 4}, timeout=1200,
+                        bound="same with len(s) <= 4"),
         what="delimiter-issue codes and the tag texts are unchanged by the inserted blank",
         oracle="second run of the real code", stubs=[], outside="blanks inside tags; longer strings"),
 ]
